@@ -130,3 +130,26 @@ Proof.
   - intros _ i r Hr Hi. eapply ameans_exact; eauto. intros p' [W S]. destruct (reduced_bit_depth_8_or_less_sem _ _ _ W Hr S). split; auto.
   - intros il r _ Hr. eapply ameans_exact; eauto. intros p' M. eapply leaf_interlace; eauto.
 Qed.
+
+(* ================================================================ what optimize_raw emits *)
+From OxiVerif Require Import Model.Evaluate Model.Optimize Proofs.EffectProofs Proofs.PipelineProofs.
+
+(* the image of the candidate chosen by optimize_raw (whatever the evaluator schedule, the compressor and the clock did) means
+   what the input means *)
+Theorem optimize_raw_lossless_partial (L : leaves) e o img max_size c pic :
+  optimize_alpha o = false -> scale_16 o = false -> means pic img ->
+  optimize_raw e o img max_size = Ok (Some c) -> means pic (c_image c).
+Proof.
+  intros Ha Hs Hm H. apply (emitted_satisfies (means pic) e o img max_size c); [|exact H].
+  intros b evs Hpr. destruct (perform_reductions_lossless_partial L e o img pic b evs Ha Hs Hm Hpr) as [Hb Hevs].
+  split; [exact Hb|]. eapply Forall_impl; [|exact Hevs]. intros ev Hev. destruct ev; exact Hev.
+Qed.
+
+Theorem optimize_raw_alpha_partial (L : leaves) e o img max_size c pic :
+  scale_16 o = false -> ameans pic img ->
+  optimize_raw e o img max_size = Ok (Some c) -> ameans pic (c_image c).
+Proof.
+  intros Hs Hm H. apply (emitted_satisfies (ameans pic) e o img max_size c); [|exact H].
+  intros b evs Hpr. destruct (perform_reductions_alpha_partial L e o img pic b evs Hs Hm Hpr) as [Hb Hevs].
+  split; [exact Hb|]. eapply Forall_impl; [|exact Hevs]. intros ev Hev. destruct ev; exact Hev.
+Qed.
